@@ -6,39 +6,39 @@ props = [json.loads(l) for l in open(os.path.join(V, 'properties.jsonl'))]
 CLAIMS = {
  "C01": ("who-may-write inventory + checked-arithmetic lint + conservation templates with operand provenance (MIR dataflow)",
          "Decides the code-shape preconditions of conservation: single writers of balance/escrow/fee storage, checked_* arithmetic on every ledger quantity, each value-moving body matches MOVE/FEE-IN/FEE-OUT/IBC-OUT with equal asset+amount operands, fee formula shape, all 18 action arms pay before executing. Does not evaluate the global sum over histories.", "4/C01"),
- "C02": ("must-dominate (guard-before-write) + operand provenance of authority comparisons (MIR CFG analysis)",
+ "C02": ("must-dominate (guard-before-write) + operand provenance of authority comparisons (MIR CFG analysis) + compile-fail witness for Transaction construction",
          "Decides that every state write of every checked action lies behind its own mutable check, that each check has signer == matching authority getter (keyed by the action's own bridge address) on every success path, that debits come from the signer or the withdrawer-guarded bridge address, and a frozen caller set for privileged putters. Reads of current state at execution time are what protect against former authorities; histories are not enumerated.", "4/C02"),
  "C03": ("must-dominate nonce guard + catch-site inventory + object-store immutability lint (MIR CFG + call graph)",
          "Decides nonce equality before every write, checked +1 increment on every success path, that every swallowed failure of a state-writing function is reviewed and the transaction-level ones run on a private delta applied only on success, and that ephemeral store values carry no interior mutability. Not replay-freedom over histories.", "4/C03"),
  "C04": ("pairing + operand provenance of deposit/credit and lookup/record sites; atomic-region effect-order analysis",
          "Decides that deposit emission sites are tied to an equal credit, event and cached deposit come from one value, withdrawal-event lookup and record share operands/key constructor and the record is on every success path, and failure atomicity of the swallowed receive region. Not the solvency inequality.", "4/C04"),
- "C08": ("panic reachability over the resolved call graph + domain-separation/operand-order rules + constructor discipline",
+ "C08": ("panic reachability over the resolved call graph + domain-separation/operand-order rules + canonical closed-form comparison of the tree index helpers + constructor discipline with compile-fail typestate witnesses",
          "Decides totality (no reachable panic construct from proof decoding/verification given invariants that try_into_proof must establish), 0x00/0x01 prefixes and left/right order, who may construct a Proof. RFC 6962 equality and proof soundness for all sizes are not decided.", "4/C08"),
- "C09": ("accept-only-after / must-dominate rules, arithmetic-shape lint, panic reachability (MIR CFG + call graph)",
+ "C09": ("accept-only-after / must-dominate rules, arithmetic-shape and canonical-formula lint (3*committed > 2*total), exhaustive-loop rule, panic reachability (MIR CFG + call graph), compile-fail witness",
          "Decides that verified metadata is only returned on the success edges of the chain-id/hash comparisons and quorum check, quorum arithmetic has no divide-before-multiply/saturation, the tally is behind signature, membership, address, commit-variant and first-occurrence guards, rollup data attached only behind proof + own rollup id, and blob decoding cannot reach a panic. The numeric >2/3 predicate is decided only through its arithmetic shape.", "4/C09"),
- "C13": ("pairing of tracked-set removals with removal-cache reports; must-dominate admission checks; who-may-mutate inventory",
+ "C13": ("pairing of tracked-set removals with removal-cache reports; must-dominate admission checks; exhaustive re-homing loops; who-may-mutate inventory",
          "Decides that no id leaves the tracked set without a removal reason, the per-account insert lies behind all five preconditions, container maps are mutated only by container methods, promotion uses balances net of pending costs. Invariants over operation sequences are not decided.", "4/C13"),
  "C14": ("pairing of validator entry writes with count updates; who-may-write inventory; read-then-clear ordering",
          "Decides count/entry pairing with operand provenance, removal guards on all success paths, frozen writer set, end_block returns what it read before clearing. The mirror over histories and per-batch applicability are not decided.", "4/C14"),
- "C15": ("arithmetic-shape lint + must-dominate rules on vote-extension validation (MIR CFG)",
+ "C15": ("canonical-formula threshold lint + must-dominate and per-iteration must-pass rules on vote-extension validation (MIR CFG)",
          "Decides threshold total*2/3+1 with checked ops, duplicate-voter guard before tallies, tallied commit votes followed by signature verification over the canonical message, success paths of validate_proposal, execution only behind it. Median-in-range is numeric and not decided.", "4/C15"),
- "C17": ("panic reachability from all decoder entry points over the resolved call graph (drop glue included) + constructor discipline",
+ "C17": ("panic reachability from all decoder entry points over the resolved call graph (drop glue included) + constructor discipline with compile-fail witnesses",
          "Decides that no panic construct in workspace code is reachable from any network-facing decoder unless mechanically discharged or triaged with a reason, and that Proof/Transaction values are only built behind their validations. Re-encode equivalence is not decided.", "4/C17"),
  "C18": ("symbolic truth-table evaluation of zone predicates by CFG path enumeration; operand provenance; atomic-region effect-order analysis",
          "Decides checked escrow arithmetic, exact agreement of the three source-zone predicates (finite boolean domain, exhaustive), matching channel/asset/amount operands on the matching branches, and failure atomicity of the swallowed receive region. The accounting identity over histories is not decided.", "4/C18"),
- "C05": ("must-dominate state-reset rule with correlated-flag handling; phase-order agreement from write key-set intersection (call graph); hash-iteration/clock inventory",
+ "C05": ("must-dominate state-reset rule (writers and readers of the inter-block state) with correlated-flag handling; phase-order agreement from write key-set intersection (call graph); hash-iteration/clock inventory",
          "Decides that every executing ABCI path resets to the committed snapshot before any state-writing phase, that phases with intersecting write key-sets have one relative order on cached and finalize-only paths (one open finding: oracle prices vs transactions), that hash-order iteration and clocks on the consensus path are triaged (sort-before-hash checked), exhaustive ExecutionState matches, cached results only read on the matched path. Equality of app hashes as values is not decided.", "4/C05"),
  "C06": ("sibling-agreement + must-dominate rules on proposal handlers; counter-update pairing",
          "Decides one shared per-transaction check routine, acceptance only behind both commitment equalities and decode/signature/execution/upgrade-hash success, executed list grows only behind all admission checks, failed checks of the Process variant always reject, byte counters updated after every inclusion and only assigned behind <= max. Liveness over all mempool contents is not decided.", "4/C06"),
- "C07": ("constructor discipline (who-may-construct) + accept-only-after-validators + sibling agreement + operand provenance of the Celestia split",
+ "C07": ("constructor discipline (who-may-construct, compile-fail witnesses) + accept-only-after-validators + sibling agreement + operand provenance of the Celestia split + verify-before-remove in the conductor reconstruction",
          "Decides that checked block types are only built in listed constructors, validating constructors return Ok only behind their Merkle-proof/root checks against the header data hash, unchecked constructors are confined to the sequencer storage read path, rollup maps are sorted before hashing, the two filter routines agree field by field, the Celestia split copies each rollup's own id/data/proof. Value equality of served data is not decided.", "4/C07"),
  "C10": ("who-may-call RPC sinks + must-dominate height-equality guards + operand provenance of Update variants + monotone-field rule",
          "Decides that ExecuteBlock is only reachable via execute_soft/firm behind height == next expected with the matching parent hash, contract check before every commitment update, Update variants pair with the path and the rollup number mapped from this height, block-cache next height only moves forward, CommitmentState only built with firm <= soft. Interleavings are not enumerated.", "4/C10"),
- "C11": ("who-may-write filesystem inventory + temp-write-then-rename ordering + typestate constructor discipline + confirmed-height provenance",
+ "C11": ("who-may-write filesystem inventory + temp-write-then-rename ordering + typestate constructor discipline + confirmed-height and durable-height provenance + refusal-leaves-no-trace effect rule",
          "Decides that the state file is only produced by write(temp) then rename(temp, path), typestate tokens are only minted behind the durable write of their record, the broadcast lies behind the durable prepared record, started(h) takes h from a confirmed result and the prepared height, the reader restarts from the last confirmed height, failed/pending Celestia responses are never reported as confirmed. The crash-point x outcome product is not enumerated.", "4/C11"),
- "C12": ("must-dominate size guard + pairing of input/payload moves + filter control-dependence + writer/reader type agreement",
+ "C12": ("must-dominate size guard + pairing of input/payload moves + filter control-dependence + in-place-edit (aliasing) rule + exhaustive-loop rule + writer/reader type agreement",
          "Decides that a batch is committed only under compressed_size <= 1_000_000 and together with the payload derived from the same candidate, refusals mutate nothing, take moves input and payload together, the rollup filter guards rollup entries only (metadata unconditional), and relayer/conductor use the same two list types, compression helpers and namespaces. Exactly-once over block streams is not decided.", "4/C12"),
- "C16": ("must-dominate size comparisons + failure atomicity + who-may-touch queue inventory",
+ "C16": ("must-dominate size comparisons + stored-equals-measured operand provenance + failure atomicity + who-may-touch queue inventory",
          "Decides that the bundle grows only behind both size comparisons by the compared amount, refusing paths do not write, the finished queue is touched only by push_back/pop_front/len, a flush only happens with room in the queue and is followed by the re-push, pop_now prefers finished bundles. Exactly-once over all push/pop sequences is not decided.", "4/C16"),
 }
 NA = {}
